@@ -9,7 +9,9 @@ theorem upd_other {α β : Type} [DecidableEq α] (f : α → β) (k x : α) (v 
   simp [upd, h]
 
 theorem writeAt_end (d b : Content) : writeAt d d.length b = d ++ b := by
-  simp [writeAt]
+  cases b with
+  | nil => simp [writeAt]
+  | cons c cs => simp [writeAt]
 
 theorem crun_nil (s : St) : crun [] s = s := rfl
 theorem crun_cons (e : Ev) (evs : List Ev) (s : St) : crun (e :: evs) s = crun evs (step s e) := rfl
